@@ -27,6 +27,8 @@ type Atom struct {
 	S     string   `json:"s"`
 	IL    []int64  `json:"il"`
 	SL    []string `json:"sl"`
+	// Null (string in-lists): the list ends with a NULL element
+	Null bool `json:"null,omitempty"`
 }
 
 func (a Atom) NegID() int { return a.ID + 50 }
@@ -49,6 +51,9 @@ func (a Atom) RawText() string {
 		if a.IsStr {
 			for _, s := range a.SL {
 				parts = append(parts, sqlLit(s))
+			}
+			if a.Null {
+				parts = append(parts, "NULL")
 			}
 		} else {
 			for _, i := range a.IL {
@@ -81,6 +86,10 @@ func (a Atom) TmplText(named bool) (tmpl, explained string, arg interface{}, nam
 			parts := []string{}
 			for _, s := range a.SL {
 				parts = append(parts, explLit(s))
+			}
+			if a.Null {
+				parts = append(parts, "NULL")
+				return a.Col + " IN " + ph, a.Col + " IN (" + strings.Join(parts, ",") + ")", a.listWithNull(), name
 			}
 			return a.Col + " IN " + ph, a.Col + " IN (" + strings.Join(parts, ",") + ")", a.SL, name
 		}
@@ -128,6 +137,9 @@ func (a Atom) Expression() clause.Expression {
 			for _, s := range a.SL {
 				vals = append(vals, s)
 			}
+			if a.Null {
+				vals = append(vals, nil)
+			}
 		} else {
 			for _, i := range a.IL {
 				vals = append(vals, i)
@@ -160,6 +172,9 @@ func (a Atom) MapValue() interface{} {
 	case "isnull":
 		return a.nullValue()
 	case "in":
+		if a.IsStr && a.Null {
+			return a.listWithNull()
+		}
 		if a.IsStr {
 			return a.SL
 		}
@@ -169,6 +184,15 @@ func (a Atom) MapValue() interface{} {
 		return a.S
 	}
 	return a.I
+}
+
+// listWithNull: the string list followed by a nil element (only []interface{} can hold it)
+func (a Atom) listWithNull() []interface{} {
+	out := []interface{}{}
+	for _, s := range a.SL {
+		out = append(out, s)
+	}
+	return append(out, nil)
 }
 
 // nullValue: the Go value that says NULL for an IS NULL atom: nil, or (atoms with an odd id) a
@@ -352,7 +376,8 @@ type Unit struct {
 	//  map:    "" map[string]interface{} | colarg Where("col", v) | mapss map[string]string |
 	//          mapii map[interface{}]interface{} | pk Where(k) | pkstr Where("k") | pkstrsign Where("+k") |
 	//          pkslice Where([]int64)
-	//  struct: "" | sel (the members' columns selected by name: zero values count) |
+	//  struct: "" | sel (the members' columns selected by name: zero values count) | slicesel (the same
+	//          through a slice of one struct) |
 	//          slice (a slice of structs, Elems = members per element)
 	//  named:  "" map | sqlnamed sql.Named(...) arguments | structarg / structptr a struct (pointer) whose fields are the arguments
 	//  empty_map: "" | mapss | nilmap ; empty_struct: "" | slice ; group with no calls: empty group
@@ -799,7 +824,7 @@ func (u Unit) QueryArgs(db *gorm.DB, byID map[int]Atom) (interface{}, []interfac
 		for _, id := range u.Members {
 			ms = append(ms, byID[id])
 		}
-		if u.Via == "sel" {
+		if u.Via == "sel" || u.Via == "slicesel" {
 			// select exactly the members' columns, alternating column and field spelling
 			var cols []interface{}
 			for i, a := range ms {
@@ -808,6 +833,14 @@ func (u Unit) QueryArgs(db *gorm.DB, byID map[int]Atom) (interface{}, []interfac
 				} else {
 					cols = append(cols, strings.ToUpper(a.Col[:1])+a.Col[1:])
 				}
+			}
+			if u.Via == "slicesel" {
+				// the same condition carried by a slice with one element
+				ids := []int{}
+				for _, a := range ms {
+					ids = append(ids, a.ID)
+				}
+				return StructSlice([][]int{ids}, byID), cols
 			}
 			return StructCond(ms), cols
 		}
@@ -985,7 +1018,7 @@ func (g *Gen) GenUnit(depth int, hostile bool, allowGroup bool) Unit {
 	case "struct":
 		if r.Chance(1, 3) {
 			if ms := g.eqAtomsAnyValue(r.Range(1, 2)); len(ms) > 0 {
-				return Unit{Form: "struct", Via: "sel", Members: ms}
+				return Unit{Form: "struct", Via: lib.Pick(r, []string{"sel", "sel", "slicesel"}), Members: ms}
 			}
 		}
 		ms := g.eqAtomsDistinctCols(r.Range(1, 2), true)
@@ -1434,6 +1467,7 @@ func GenAtoms(r *lib.Rng, names, nicks []string) []Atom {
 			}
 		case 9:
 			a.Col, a.Op, a.IsStr, a.SL = "name", "in", true, []string{lib.Pick(r, names), lib.Pick(r, names)}
+			a.Null = r.Chance(1, 4)
 		}
 		key := a.RawText()
 		// no atom text may be a prefix of another (the lexer takes the longest match)
